@@ -49,7 +49,22 @@ def lean_sources():
     return sorted(out)
 
 
-EXTRA_PROPS = {"C04": ["C04Par"], "C09": ["C09Hist"]}
+def module_closure(roots):
+    """project modules reachable from `roots` through `import TrashVerif.…` lines"""
+    seen, todo = [], list(roots)
+    while todo:
+        m = todo.pop()
+        if m in seen:
+            continue
+        f = os.path.join(LEAN_DIR, *m.split(".")) + ".lean"
+        if not os.path.exists(f):
+            continue
+        seen.append(m)
+        todo += re.findall(r"^import\s+(TrashVerif\.[A-Za-z0-9_.]+)", open(f).read(), re.M)
+    return sorted(seen)
+
+
+EXTRA_PROPS = {"C04": ["C04Par"], "C09": ["C09Hist"], "C16": ["C16Indep"]}
 
 
 def audit(pid):
@@ -97,8 +112,19 @@ def audit(pid):
     discharged = [n for n in names if set(axioms[n]) <= ALLOWED_AXIOMS]
     if bad_kw:
         discharged = []
+    recheck = None
+    if os.environ.get("VERIF_TIER") == "thorough":
+        # thorough tier: leanchecker (the toolchain's independent re-checker) replays the compiled Props modules of this
+        # property and every project module they import, transitively
+        mods = module_closure(["TrashVerif.Props." + m for m in sorted({m for m, _ in [(pid, None)] + [(e, None) for e in EXTRA_PROPS.get(pid, [])]})])
+        t1 = time.time()
+        pc = subprocess.run(["lake", "env", "leanchecker"] + mods, cwd=LEAN_DIR, stdout=subprocess.PIPE, stderr=subprocess.STDOUT, text=True)
+        recheck = {"modules": len(mods), "exit": pc.returncode, "seconds": round(time.time() - t1, 1)}
+        if pc.returncode != 0:
+            recheck["output"] = pc.stdout[-2000:]
+            discharged = []
     return {"theorems": names, "axioms": axioms, "discharged": len(discharged),
-            "obligations": len(names), "forbidden_hits": bad_kw, "audit_s": round(time.time() - t0, 2),
+            "obligations": len(names), "forbidden_hits": bad_kw, "audit_s": round(time.time() - t0, 2), "leanchecker": recheck,
             "checker_cmd": "cd lean/TrashVerif && lake build TrashVerif && lake env lean <(#print axioms of every theorem in TrashVerif/Props/%s.lean%s)" % (pid, "".join(" and Props/%s.lean" % e for e in EXTRA_PROPS.get(pid, [])))}
 
 
@@ -215,6 +241,8 @@ class Check:
             "wall_s": round(time.time() - self.t0, 2),
             "violations": nviol,
         }
+        if audit_info.get("leanchecker"):
+            ev["coverage"]["independent_recheck"] = dict(audit_info["leanchecker"], tool="leanchecker (lake env leanchecker <Props modules and their project imports>)")
         if self.exhaustive is not None:
             ev["coverage"]["exhaustive"] = self.exhaustive
         ev["coverage"].update(self.extra)
